@@ -28,7 +28,8 @@
 //!   (xport <world> (reads b<chunk>*) <dec>)
 //!       the request stream over unix path, unix path `;mode=0666`, `unix:@abstract`,
 //!       `tcp:127.0.0.1:port`, `Connection::with_activate`, `Connection::with_bridge`
-//!       -> (xport (unix <R>) (unixmode <R>) (abstract <R>) (tcp <R>) (activate <R>) (bridge <R>) <act>)
+//!       and `Connection::with_bridge("varlink bridge --connect unix:…")` (the CLI bridge as a bridge command)
+//!       -> (xport (unix <R>) (unixmode <R>) (abstract <R>) (tcp <R>) (activate <R>) (bridge <R>) (bridgecli <R>) <act>)
 //!          R = (out <reply>*) | (timeout) | (fail x<why>);
 //!          act = (act x<LISTEN_FDS> x<LISTEN_FDNAMES> <LISTEN_PID is the child's pid>
 //!                     <VARLINK_ADDRESS is unix:<name of fd 3>> <fd 3 is a listening unix socket, inheritable>
@@ -499,6 +500,71 @@ fn xport_bridge(helper: &str, specfile: &str, chunks: Vec<Vec<u8>>) -> Sx {
     }
 }
 
+/// the CLI bridge as a bridge command: `Connection::with_bridge("varlink bridge --connect ADDRESS")` in
+/// front of the same service.  The bridge's stdin and stdout are one socket here, so the client does not
+/// half-close: it reads until it has as many frames as the plain unix transport delivered (or EOF).
+fn xport_bridgecli(spec: &WorldSpec, dir: &str, chunks: Vec<Vec<u8>>, expect_frames: usize, patience: Duration) -> Sx {
+    let address = format!("unix:{}/c.sock", dir);
+    let h = spawn_service(spec, &address);
+    let cmdline = format!("exec {} bridge --connect {}", varlink_cli_path(), address);
+    let res = match with_watchdog(Duration::from_secs(8), move || varlink::Connection::with_bridge(&cmdline)) {
+        None => sx::tagged("timeout", vec![]),
+        Some(Err(e)) => sx::tagged("fail", vec![sx::xs(&format!("{:?}", e.kind()))]),
+        Some(Ok(conn)) => {
+            let guard = kill_child_of(&conn);
+            let (r, w) = {
+                let mut c = conn.write().unwrap();
+                (c.reader.take(), c.writer.take())
+            };
+            let out = match (r, w) {
+                (Some(mut r), Some(mut w)) => {
+                    let buf = std::sync::Arc::new(std::sync::Mutex::new(Vec::new()));
+                    let eof = std::sync::Arc::new(std::sync::atomic::AtomicBool::new(false));
+                    let (b2, e2) = (buf.clone(), eof.clone());
+                    std::thread::spawn(move || {
+                        let mut tmp = [0u8; 8192];
+                        loop {
+                            match r.read(&mut tmp) {
+                                Ok(0) | Err(_) => break,
+                                Ok(n) => b2.lock().unwrap().extend_from_slice(&tmp[..n]),
+                            }
+                        }
+                        e2.store(true, Ordering::SeqCst);
+                    });
+                    std::thread::spawn(move || {
+                        for c in chunks {
+                            if w.write_all(&c).is_err() {
+                                break;
+                            }
+                            let _ = w.flush();
+                        }
+                        // keep `w` (a duplicate of the socket) until the session is over
+                        std::thread::sleep(Duration::from_secs(20));
+                    });
+                    let t0 = std::time::Instant::now();
+                    loop {
+                        let n = buf.lock().unwrap().iter().filter(|b| **b == 0).count();
+                        if n >= expect_frames || eof.load(Ordering::SeqCst) || t0.elapsed() > patience {
+                            break;
+                        }
+                        std::thread::sleep(Duration::from_millis(2));
+                    }
+                    // a little patience for anything that should NOT come
+                    std::thread::sleep(Duration::from_millis(20));
+                    let b = buf.lock().unwrap().clone();
+                    sx::tagged("out", wire::split_replies(&b))
+                }
+                _ => sx::tagged("fail", vec![sx::xs("no reader/writer")]),
+            };
+            drop(conn);
+            drop(guard);
+            out
+        }
+    };
+    drop(h);
+    sx::tagged("bridgecli", vec![res])
+}
+
 fn run_xport(ctx: &Ctx, l: &[Sx]) -> Sx {
     let spec = WorldSpec::from_sx(&l[1]).expect("world");
     let chunks: Vec<Vec<u8>> = l[2].as_list().unwrap()[1..].iter().map(|c| c.as_bytes().unwrap()).collect();
@@ -545,9 +611,85 @@ fn run_xport(ctx: &Ctx, l: &[Sx]) -> Sx {
         act = a;
         res.push(xport_bridge(&helper, &specfile, chunks.clone()));
     }
+    // complete NUL-terminated frames the plain unix transport delivered
+    let expect_frames = res[0]
+        .as_list()
+        .and_then(|l| l.get(1))
+        .and_then(|o| o.as_list())
+        .map(|o| o.len().saturating_sub(1))
+        .unwrap_or(0);
+    res.push(xport_bridgecli(&spec, &sub.dir, chunks.clone(), expect_frames, Duration::from_secs(if spec.up { 12 } else { 5 })));
     res.push(act);
     let _ = std::fs::remove_dir_all(&sub.dir);
     sx::tagged("xport", res)
+}
+
+/// `(actlisten <nonblock t|f> <idle> <rounds>)`: a supervisor (the harness) owns a listening unix socket
+/// `%D/act.sock`, optionally with O_NONBLOCK set on it (as systemd hands sockets over), and starts
+/// `vhelper serve` on it with the activation variables (`LISTEN_PID=$$`), `rounds` times in a row: each
+/// time one client connects to the path and calls GetInfo; between rounds the service is left to end on
+/// its idle timeout (or is killed when `idle` is 0).  After each round: does the path still exist?
+///   -> (actlisten (round <R> <t|f>)*)
+fn run_actlisten(ctx: &Ctx, l: &[Sx]) -> Sx {
+    let nonblock = l[1].as_atom() == Some("t");
+    let idle = l[2].as_usize().unwrap_or(0);
+    let rounds = l[3].as_usize().unwrap_or(1);
+    let sub = Subst::new(ctx, "l");
+    let path = format!("{}/act.sock", sub.dir);
+    let specfile = format!("{}/spec", sub.dir);
+    let spec = WorldSpec::plain(wire::configs()[0].sx.clone());
+    std::fs::write(&specfile, spec.to_sx().render() + "\n").unwrap();
+    let listener = std::os::unix::net::UnixListener::bind(&path).expect("bind act.sock");
+    if nonblock {
+        let _ = listener.set_nonblocking(true); // O_NONBLOCK lives in the open file description: the child inherits it
+    }
+    let lfd = listener.as_raw_fd();
+    let mut res = Vec::new();
+    let mut req = serde_json::to_vec(&serde_json::json!({"method":"org.varlink.service.GetInfo"})).unwrap();
+    req.push(0);
+    for _ in 0..rounds {
+        let mut cmd = std::process::Command::new("sh");
+        cmd.arg("-c")
+            .arg("LISTEN_PID=$$ exec \"$0\" \"$@\"")
+            .arg(helper_path())
+            .arg("serve")
+            .arg(&specfile)
+            .arg(format!("unix:{}", path))
+            .arg("--idle")
+            .arg(format!("{}", idle))
+            .env("LISTEN_FDS", "1")
+            .env("LISTEN_FDNAMES", "varlink")
+            .stdin(std::process::Stdio::null());
+        unsafe {
+            cmd.pre_exec(move || {
+                let h = libc::fcntl(lfd, libc::F_DUPFD, 200);
+                if h < 0 {
+                    return Err(std::io::Error::last_os_error());
+                }
+                for fd in 3..200 {
+                    libc::close(fd);
+                }
+                if libc::dup2(h, 3) < 0 {
+                    return Err(std::io::Error::last_os_error());
+                }
+                libc::close(h);
+                Ok(())
+            });
+        }
+        let child = cmd.spawn().expect("spawn helper");
+        let mut guard = ChildGuard::new(child);
+        let r = over_address(&format!("unix:{}", path), vec![req.clone()]);
+        if idle > 0 && rounds > 1 {
+            // let the service end by itself: its listener is dropped, the socket must survive
+            let _ = guard.wait_timeout(Duration::from_millis(idle as u64 * 1000 + 2500));
+        }
+        drop(guard);
+        let exists = std::path::Path::new(&path).exists();
+        res.push(sx::tagged("round", vec![r, sx::boolean(exists)]));
+    }
+    drop(listener);
+    let _ = std::fs::remove_dir_all(&sub.dir);
+    sx::tagged("actlisten", res)
 }
 
 fn run_act3(ctx: &Ctx, l: &[Sx]) -> Sx {
@@ -878,7 +1020,7 @@ impl Suite for AddrSuite {
         // a reply that takes longer than any plausible per-transport timeout, on all six transports at once
         {
             let cfgs = wire::configs();
-            let slow_world = WorldSpec { svc: cfgs[1].sx.clone(), resolver: None, up: true };
+            let slow_world = WorldSpec { svc: cfgs[1].sx.clone(), resolver: None, up: true, seq: false };
             let mut slow = vec![serde_json::json!({"method":"org.example.abort.SlowReply","parameters":{"delay_ms":5600,"token":"slow1"}})];
             if ctx.thorough {
                 slow.push(serde_json::json!({"method":"org.example.abort.SlowStream","more":true,"parameters":{"delay_ms":5600,"token":"slow2"}}));
@@ -891,6 +1033,14 @@ impl Suite for AddrSuite {
                 total.extend_from_slice(&extra);
                 cases.push(Case { input: xport_case(&slow_world, &[total.clone()], &total), tags: vec!["kind:xport".into(), "xport:slow-reply".into()] });
             }
+        }
+        // a supervisor's socket: O_NONBLOCK on the inherited descriptor, no idle timeout; and a second
+        // activation round on the same socket after the first service has ended on its idle timeout
+        for (nb, idle, rounds) in [(true, 0usize, 1usize), (false, 0, 1), (true, 1, 2)].iter().chain(if ctx.thorough { [(false, 1usize, 2usize)].iter() } else { [].iter() }) {
+            cases.push(Case {
+                input: sx::tagged("actlisten", vec![sx::boolean(*nb), sx::nat(*idle), sx::nat(*rounds)]),
+                tags: vec!["kind:actlisten".into()],
+            });
         }
         // the listener already is descriptor 3 (C16-F2)
         for cfg in wire::configs().iter().take(if ctx.thorough { 4 } else { 2 }) {
@@ -930,6 +1080,7 @@ impl Suite for AddrSuite {
             "actenv" => run_actenv(ctx, l),
             "xport" => run_xport(ctx, l),
             "act3" => run_act3(ctx, l),
+            "actlisten" => run_actlisten(ctx, l),
             other => panic!("case kind {}", other),
         }
     }
